@@ -5,7 +5,9 @@ import (
 	"time"
 
 	sdkmath "cosmossdk.io/math"
+	stakingtypes "cosmossdk.io/x/staking/types"
 	sdk "github.com/cosmos/cosmos-sdk/types"
+	authtypes "github.com/cosmos/cosmos-sdk/x/auth/types"
 
 	"svh/sim"
 )
@@ -38,6 +40,17 @@ func suiteDaEpoch(e *Env) {
 				}
 			}
 		}
+		// every second history governance also lowers max_validators by one: the weakest validator that is still bonded leaves the
+		// set WITHOUT being jailed (status UNBONDING) and may carry faults above the threshold into the boundary
+		if h%2 == 1 {
+			sp, _ := c.App.StakingKeeper.Params.Get(c.Ctx())
+			sp.MaxValidators = uint32(len(c.Vals) - len(jailed) - 1)
+			if sp.MaxValidators >= 1 {
+				sp.KeyRotationFee = sdk.NewCoin(sp.BondDenom, sp.KeyRotationFee.Amount)
+				_, err, p := c.Exec(&stakingtypes.MsgUpdateParams{Authority: authtypes.NewModuleAddress("gov").String(), Params: sp})
+				e.Stat("max_validators_lowered." + class(err, p))
+			}
+		}
 		if _, err := c.NextBlock(6 * time.Second); err != nil {
 			e.Obs("halt %v", err)
 			return
@@ -65,9 +78,14 @@ func suiteDaEpoch(e *Env) {
 		}
 		threshold := thr.MulInt64(int64(challenges)).Ceil().TruncateInt().Uint64()
 		pre := make([]bool, len(c.Vals))
+		wasJailed := make([]bool, len(c.Vals))
 		for i, v := range c.Vals {
 			val, _ := c.App.StakingKeeper.Validator(c.Ctx(), v.Oper)
 			pre[i] = val.IsBonded() && !val.IsJailed()
+			wasJailed[i] = val.IsJailed()
+			if !val.IsBonded() && !val.IsJailed() {
+				e.Stat("with_unbonding_unjailed_validator")
+			}
 		}
 		desc := fmt.Sprintf("challenges=%d threshold=%d faults=%v jailed_before=%v", challenges, threshold, faults, jailed)
 		e.Note("history %d %s", h, desc)
@@ -82,7 +100,7 @@ func suiteDaEpoch(e *Env) {
 			}
 			val, _ := c.App.StakingKeeper.Validator(ctx, v.Oper)
 			wantSlash := pre[i] && faults[i] > threshold
-			gotSlash := pre[i] && val.IsJailed()
+			gotSlash := val.IsJailed() && !wasJailed[i] // jailed by this boundary, whatever its status was
 			e.Oracle("slash_iff", wantSlash == gotSlash, "validator %d faults=%d bonded_unjailed=%v slashed=%v want=%v %s", i, faults[i], pre[i], gotSlash, wantSlash, desc)
 			e.Stat(fmt.Sprintf("slash.%v", gotSlash))
 		}
